@@ -123,7 +123,16 @@ def main() -> int:
 
         io.open = dying_open
 
-    calls = wrong = raised = 0
+    import signal
+
+    class Stuck(BaseException):
+        pass
+
+    def on_alarm(signum, frame):
+        raise Stuck
+
+    signal.signal(signal.SIGALRM, on_alarm)
+    calls = wrong = raised = stuck = 0
     fails = []
     t_end = time.time() + cfg["seconds"] if cfg.get("seconds") else None
     n_iter = 0
@@ -137,22 +146,35 @@ def main() -> int:
         i = rng.randrange(len(exprs))
         calls += 1
         try:
-            r = perform_cached_doit(exprs[i], d)
+            signal.setitimer(signal.ITIMER_REAL, 60)
+            try:
+                r = perform_cached_doit(exprs[i], d)
+            finally:
+                signal.setitimer(signal.ITIMER_REAL, 0)
+        except Stuck:
+            stuck += 1
+            fails.append({"fail": "stuck", "expr": i, "mode": mode, "error": "a call did not return within 60 s"})
+            break
         except Exception as ex:  # noqa: BLE001
             raised += 1
             if len(fails) < 3:
                 fails.append({"fail": "raised", "expr": i, "family_index": i, "mode": mode,
                               "error": f"{type(ex).__name__}: {ex}"[:300]})
             continue
-        if not X.deep_equal(r, doits[i]):
+        why = None if X.deep_equal(r, doits[i]) else "not structurally identical"
+        if why is None and calls % 16 == 1:
+            why = X.behaves_same(r, doits[i])
+        if why is not None:
             wrong += 1
             if len(fails) < 3:
-                fails.append({"fail": "wrong value", "expr": i, "mode": mode, "got": str(r)[:200],
+                fails.append({"fail": "wrong value", "difference": why, "expr": i, "mode": mode, "got": str(r)[:200],
                               "expected": str(doits[i])[:200], "expr_str": str(exprs[i])})
     for f in fails:
         print(json.dumps(f), flush=True)
-    print(json.dumps({"summary": {"calls": calls, "wrong": wrong, "raised": raised, "mode": mode,
-                                  "pid": os.getpid(), "names": sorted(set(names))[:3]}}), flush=True)
+    print(json.dumps({"summary": {"calls": calls, "wrong": wrong + stuck, "raised": raised, "mode": mode,
+                                  "pid": os.getpid(), "first_name": names[0][:40],
+                                  "seeded_names": sum(n.startswith("pythonhashseed-") for n in names),
+                                  "sha_names": sum(not n.startswith("pythonhashseed-") for n in names)}}), flush=True)
     return 0
 
 
